@@ -21,6 +21,7 @@ r6=sweep(f"{V}/seeded/sweep_round6_baseline.log")
 r7=sweep(f"{V}/seeded/sweep_round7_baseline.log")
 r8=sweep(f"{V}/seeded/sweep_round8_baseline.log")
 r9=sweep(f"{V}/seeded/sweep_round9_baseline.log")
+r10=sweep(f"{V}/seeded/sweep_round10_baseline.log")
 fin=sweep(f"{V}/seeded/sweep_final.log")
 rows=[]
 for d in sorted(glob.glob(f"{V}/seeded/C[0-9][0-9][a-z]")):
@@ -29,7 +30,7 @@ for d in sorted(glob.glob(f"{V}/seeded/C[0-9][0-9][a-z]")):
     what=(m.get("what_breaks") or "").replace("\n"," ").replace("|","/")
     if len(what)>230: what=what[:227]+"..."
     files=", ".join(m.get("files_changed",[]))
-    first=r1.get(n) if n[-1] in "ab" else (r2.get(n) if n[-1] in "cd" else (r3.get(n) if n[-1] in "ef" else (r4.get(n) if n[-1] in "gh" else (r5.get(n) if n[-1] in "ij" else (r6.get(n) if n[-1] in "kl" else (r7.get(n) if n[-1] in "mn" else (r8.get(n) if n[-1] in "op" else r9.get(n))))))))
+    first=r1.get(n) if n[-1] in "ab" else (r2.get(n) if n[-1] in "cd" else (r3.get(n) if n[-1] in "ef" else (r4.get(n) if n[-1] in "gh" else (r5.get(n) if n[-1] in "ij" else (r6.get(n) if n[-1] in "kl" else (r7.get(n) if n[-1] in "mn" else (r8.get(n) if n[-1] in "op" else (r9.get(n) if n[-1] in "qr" else r10.get(n)))))))))
     last=fin.get(n)
     f1 = "—" if first is None else ("yes" if first[0]=="caught" else "**no**")
     fl = "?" if last is None else (" ".join(last[1]) if last[1] else "**none**")
